@@ -55,4 +55,17 @@ PROPS = {
         "assumptions": ["headers come from one canonical chain"],
         "tests": [{"name": "TestC14", "quick": 2000, "thorough": 100000, "gomaxprocs": 1, "env": {"GODEBUG": "asyncpreemptoff=1"}}],
     },
+    "C06": {
+        "level": "fault_enumeration",
+        "technique": "property-based generation of store histories (rapid) + exhaustive enumeration of every commit-log prefix as a crash image, and injected runs of failing datastore writes; reopened store judged by an invariant oracle",
+        "level_text": "For each generated append/sync/delete/restart history on a recording datastore, EVERY prefix of the commit log (each direct write and each batch commit atomic) is rebuilt as a crash image and a fresh Store is opened on it: Start must succeed, Head/Tail (when present) resolve, every height between them is retrievable, every header of a committed batch not inside a started DeleteRange is retrievable, and appending the continuation moves Head to the new tip of a gap-free run. Clean restarts must reproduce Head/Tail/all headers. A second engine runs the same histories with N in {1,2,3,5} consecutive failing writes at a drawn position and judges the surviving data the same way.",
+        "level_note": "Batch commits are atomic and images are log prefixes (as the statement says); fault placements (i,N) are drawn, not enumerated; in-memory datastore flavours.",
+        "rule": "Crash engine: non-trivial = a crash point strictly inside a DeleteRange's write sequence, or >=2 flush commits with a Stop right after an Append. Fault engine: non-trivial = the fault window actually failed >=1 write. Distinct = distinct scenario JSON. evaluations counts histories; extra_counts.crash_images_checked counts reopened images.",
+        "assumptions": ["batch commits atomic; crash images are prefixes of the commit log (no reordering, no torn batches)"],
+        "extra_as_evaluations": [],
+        "tests": [
+            {"name": "TestC06", "quick": 300, "thorough": 20000, "gomaxprocs": 1},
+            {"name": "TestC06Faults", "quick": 600, "thorough": 40000, "gomaxprocs": 1},
+        ],
+    },
 }
